@@ -253,3 +253,14 @@ Proof.
   exact (sum_walk_eq_recursive tok teqb teqb_spec fams rprio rorder tprio rk M H1 H2 H3 root lbl HM Hr).
 Qed.
 Print Assumptions C05_sum_walk_eq_recursive.
+
+(* ---- Round 12: the optimum is measured with the priorities DECLARED in the grammar text.  Every compiled alternative
+   (Rule object) of a definition `name.N:` carries N - also the alternatives with absent [..] placeholders, which own a
+   copy of the options object (Grammar.compile step 4, regenerated: Gen/RulePriority.v) - so the priority tables loaded
+   under a mode are the mode's image of the declared ones; compared on every run for every (grammar, lexer, mode). *)
+From LV Require Import Gen.RulePriority Forest.RulePrio_proofs.
+
+Theorem C05_compiled_priority_is_declared (m : pmode) (declared : option Z) (absent_placeholders : bool) :
+  load_rprio m (compiled_priority declared absent_placeholders) = load_rprio m declared.
+Proof. exact (compiled_priority_is_declared m declared absent_placeholders). Qed.
+Print Assumptions C05_compiled_priority_is_declared.
